@@ -238,6 +238,27 @@ class SymVC(BaseVC):
     def fmode(self, on=True):
         self.c.fmode = on
 
+    def as_code(self, f):
+        """evaluate f() with the arithmetic interpretation of repository code (F-mode rounding applies)"""
+        self.c.in_code += 1
+        try:
+            return f()
+        finally:
+            self.c.in_code -= 1
+
+    def split_int(self, x, lo, hi):
+        """case split on an integer input: returns the concrete value on each path (complete over lo..hi)"""
+        for k in range(lo, hi + 1):
+            if x == k:
+                return k
+        raise PathAbort()
+
+    def dyadic(self, x, k, because):
+        """declare that the float value x is a multiple of 2**-k (a fact about the binary64 format, e.g. every double
+        of magnitude >= 2**21 is a multiple of 2**-31); recorded as an assumption."""
+        self.c.set_dyadic(z3.simplify(sym._real(sym._as_arith(x))) if False else sym._real(sym._as_arith(x)), k)
+        AXIOMS_USED.add(f"binary64 format: {because}")
+
     def is_multiple(self, x, period):
         """exists k in Z. x == period*k, offered to the solver as a disjunction of witnesses built from the
         floor terms that occur in x (the solvers cannot find the witness themselves, DESIGN 3.10(e))."""
@@ -278,6 +299,23 @@ class SymVC(BaseVC):
 
     def cls(self, spec, **kw):
         return self.loader.cls(spec, **kw)
+
+    def float_class(self, spec):
+        """symbolic stand-in for a float subclass of the repository (JulianDate, ScenarioTime): instances box a value,
+        `float(box)` yields it, and every method/operator is the extracted real method of the class."""
+        key = ("floatcls", spec)
+        if key in self.loader.cache:
+            return self.loader.cache[key]
+        flat = self.loader.cls(spec)
+
+        def _new(cls, v=0.0):
+            o = object.__new__(cls)
+            o._v = v._pyvc_value() if hasattr(v, "_pyvc_value") else v
+            return o
+        Box = type(flat.__name__, (flat,), {"__new__": _new, "_pyvc_value": lambda self: self._v,
+                                            "__repr__": lambda self: f"{flat.__name__}<{self._v}>"})
+        self.loader.cache[key] = Box
+        return Box
 
     def new(self, spec, **attrs):
         C = self.loader.cls(spec)
@@ -442,6 +480,15 @@ class ConcVC(BaseVC):
     def fmode(self, on=True):
         pass
 
+    def dyadic(self, x, k, because):
+        pass
+
+    def split_int(self, x, lo, hi):
+        return int(x)
+
+    def as_code(self, f):
+        return f()
+
     def is_multiple(self, x, period):
         q = x / period
         return abs(q - round(q)) < 1e-9 * (1 + abs(q))
@@ -459,6 +506,9 @@ class ConcVC(BaseVC):
         return o
 
     def cls(self, spec, **kw):
+        return self.fn(spec)
+
+    def float_class(self, spec):
         return self.fn(spec)
 
     def new(self, spec, **attrs):
